@@ -104,8 +104,8 @@ theorem memDisp_decoded (rb7 rel s : BitVec 32) (hs : s ≤ 6#32) :
 /-! ### `EmitVexEvexM` on a `[base64 + disp]` operand -/
 
 /-- model-side `[base64 + disp]` operand -/
-def memBase (size : Nat) (rb : BitVec 32) (d : BitVec 64) : Mem :=
-  { size := size, baseType := 6, baseId := rb.toNat, indexType := 0, indexId := 0, shift := 0, offset := d, seg := 0, bcst := 0, addrType := 0 }
+def memBase (size : Nat) (rb : BitVec 32) (d : BitVec 64) (seg : Nat := 0) : Mem :=
+  { size := size, baseType := 6, baseId := rb.toNat, indexType := 0, indexId := 0, shift := 0, offset := d, seg := seg, bcst := 0, addrType := 0 }
 
 theorem memInfo_gp64 : memInfo 6 0 = 0x0D#32 := by decide
 
@@ -117,18 +117,19 @@ theorem xMb_eq_xR (opcode reg vvvvv rb : BitVec 32) (hb : rb < 16#32) : xMb opco
   simp only [xMb, xR]; bv_decide
 
 /-- `EmitVexEvexM` = prefix part, then `EmitModSib` with the (adjusted) opcode word -/
-theorem emitVexEvexM_base_eq (c : Model.X86.Ctx) (opcode reg vvvvv rb : BitVec 32) (size : Nat) (d imm : BitVec 64) (n : Nat)
+theorem emitVexEvexM_base_eq (c : Model.X86.Ctx) (opcode reg vvvvv rb : BitVec 32) (size : Nat) (d imm : BitVec 64) (n : Nat) (seg : Nat)
     (hm : c.mode64 = true) (hpe : c.preferEvex = false) (hk : c.extraId = 0#32) (hvs : c.vsib = false) :
-    emitVexEvexM c opcode 0#32 (reg + (vvvvv <<< 7)) (memBase size rb d) imm n =
-      (match vexEvexMPrefix c (if c.vexFlag then xMb opcode reg vvvvv rb else xMb opcode reg vvvvv rb ||| 0x80000000#32) opcode 0#32 (memBase size rb d) with
+    emitVexEvexM c opcode 0#32 (reg + (vvvvv <<< 7)) (memBase size rb d seg) imm n =
+      (match vexEvexMPrefix c (if c.vexFlag then xMb opcode reg vvvvv rb else xMb opcode reg vvvvv rb ||| 0x80000000#32) opcode 0#32 (memBase size rb d seg) with
        | .error e => .error e
-       | .ok v => emitModSib c v.1 0 v.2 0#32 ((reg + (vvvvv <<< 7)) &&& 7#32) rb 0#32 0x0D#32 (memBase size rb d) imm n false) := by
+       | .ok v => emitModSib c (segmentPrefix seg ++ v.1) (segmentPrefix seg).length v.2 0#32 ((reg + (vvvvv <<< 7)) &&& 7#32) rb 0#32 0x0D#32
+                    (memBase size rb d seg) imm n false) := by
   unfold emitVexEvexM
   simp only [memBase, xMb]
-  simp only [rtLabel, hk, hpe, hvs, memInfo_gp64, segmentPrefix, Model.X86.Ctx.aoMask, hm, oZMask, oER, oSAE, oVex, oVex3]
+  simp only [rtLabel, hk, hpe, hvs, memInfo_gp64, Model.X86.Ctx.aoMask, hm, oZMask, oER, oSAE, oVex, oVex3]
   simp only [BitVec.ofNat_toNat, BitVec.setWidth_eq, BitVec.zero_and, BitVec.zero_or, BitVec.or_zero, bne_self_eq_false, Bool.false_eq_true, ↓reduceIte,
     Bool.false_and, gt_iff_lt, Nat.lt_irrefl, Nat.not_lt_zero, BitVec.zero_shiftLeft, BitVec.and_zero, bind, Except.bind, Bool.not_false,
-    show (1 < 6) = True from by decide, show (0x0D#32 &&& 0x80#32 != 0#32) = false from by decide, List.nil_append, List.length_nil,
+    show (1 < 6) = True from by decide, show (0x0D#32 &&& 0x80#32 != 0#32) = false from by decide, List.nil_append, List.length_nil, List.append_nil,
     show ((0:Nat) != 0) = false from by decide]
   generalize vexEvexMPrefix c _ opcode 0#32 _ = r
   cases r <;> rfl
@@ -163,8 +164,8 @@ theorem vexEvexMPrefix_nobcst (c : Model.X86.Ctx) (x opcode : BitVec 32) (m : Me
 
 
 /-- spec-side `[base64 + disp]` operand -/
-def memOpBase (size : Nat) (rb : BitVec 32) (d : BitVec 64) : MemOp :=
-  { size := size, baseKind := .gpq, baseId := rb.toNat, indexKind := .none, indexId := 0, shift := 0, disp := d, seg := 0, bcst := 0, addrType := 0 }
+def memOpBase (size : Nat) (rb : BitVec 32) (d : BitVec 64) (seg : Nat := 0) : MemOp :=
+  { size := size, baseKind := .gpq, baseId := rb.toNat, indexKind := .none, indexId := 0, shift := 0, disp := d, seg := seg, bcst := 0, addrType := 0 }
 
 /-- the opcode word after the EVEX compressed-displacement adjustment of `EmitVexEvexM` (no broadcast) -/
 def evexCdOpcode (opcode xw : BitVec 32) : BitVec 32 :=
